@@ -30,7 +30,10 @@ RULE = ("Operation histories (<=12 steps quick / <=25 thorough) over a pool of 2
         "terms. MultiformOperator histories (<=10/16 steps): in-place +=, -=, *= with MultiformOperator or scalar operands, compress(), _update(), "
         "remove_terms (int/list/array), array product (optionally continuing the chain with it), do_commute both modes and both orders; whenever the "
         "class is in sync the integer/binary/binary_swap/factors arrays must encode the current terms row by row; non-trivial = >=3 executed steps and "
-        ">=1 re-synchronisation after in-place arithmetic. Distinct = distinct canonical JSON of the case.")
+        ">=1 re-synchronisation after in-place arithmetic. Every result of the histories/matrix is also compared (==, != , both orders) with its "
+        "non-zero-terms-only and zero-padded twins (same class and plain openfermion class); conjugate pairs c+xw, c-xw and zero scalars make results "
+        "with explicit zero coefficients frequent. commute_large: do_commute on 1-8 / 100-300 / 1000-4096 x 1-8 / 50-300 distinct words (5-8 or 30-34 "
+        "qubits, words from an affine bijection of base-4 codes) against an independent vectorised symplectic product, both modes and orders. Distinct = distinct canonical JSON of the case.")
 ASSUMPTIONS = ["openfermion's plain FermionOperator/QubitOperator containers (term dictionaries) are trusted; refusals that openfermion "
                "itself documents (TypeError for an operand that is not an instance of the left operand's class) are accepted outcomes",
                "reference Pauli table in vlib/refops.py (self-tested against Kronecker-product matrices); fermionic words multiply by concatenation "
@@ -344,6 +347,36 @@ class Machine:
                 raise Fail(f"result of step {step} shares its term dictionary with pooled operand #{i}",
                            sig=f"shared-state:{self.fam}:{self.model[i]['k']}:{INPLACE.get(step[0], step[0])}", step=list(step))
 
+    def check_eq_forms(self, step, r, kind, attrs):
+        """== / != must see a result as the algebraic object it is: equal to an independently built operator holding only
+        its non-zero terms, to the same operator with extra explicit 0.0 terms, and to their plain-openfermion twins, in
+        both orders (openfermion's equality treats a missing term and a zero coefficient alike; Tangelo documents only
+        additional checks on the annotations)."""
+        fam = self.fam
+        cur = dict(r.terms)
+        nz = {k: v for k, v in cur.items() if v != 0}
+        extra = [((3, 1), (3, 0)), ((0, 1),)] if fam == "F" else [((3, "X"),), ((0, "Z"), (1, "Z"))]
+        padded = dict(cur)
+        for k in extra:
+            padded.setdefault(k, 0.0)
+        plain = "of" if fam == "F" else "oq"
+        forms = [("nonzero-terms-only", make_operator(fam, kind, nz, attrs)), ("padded-with-zero-terms", make_operator(fam, kind, padded, attrs))]
+        if kind != plain:
+            forms += [("nonzero-terms-only/openfermion", make_operator(fam, plain, nz, None)), ("padded-with-zero-terms/openfermion", make_operator(fam, plain, padded, None))]
+        if len(nz) < len(cur):
+            self.labels.add("eq-forms:result-holds-explicit-zero")
+        self.labels.add("eq-forms:checked")
+        for name, c in forms:
+            for left, right, order in ((r, c, "result==form"), (c, r, "form==result")):
+                try:
+                    eq, ne = (left == right), (left != right)
+                except Exception as e:   # classified: any exception here is a violation
+                    raise Fail(f"comparing the result of step {step} ({kind}{attrs or ''}{show(cur)}) with its {name} form raised {type(e).__name__}: {e}",
+                               sig=f"eq-forms:{fam}:{kind}:exception:{type(e).__name__}", step=list(step))
+                if eq is not True or ne is not False:
+                    raise Fail(f"result of step {step}, {kind}{attrs or ''}{show(cur)}, compared with the algebraically identical operator ({name}: "
+                               f"{show(dict(c.terms))}), {order}: == gives {eq!r}, != gives {ne!r}", sig=f"eq-forms:{fam}:{kind}:{name.split('/')[0]}", step=list(step))
+
     def mark(self, *idx):
         if any(i in self.touched for i in idx if i is not None):
             self.reused = True
@@ -382,6 +415,7 @@ class Machine:
             self.check_unchanged(step)
             self.no_sharing(step, r)
             self.push({"k": kind, "attrs": attrs, "terms": exp}, r)
+            self.check_eq_forms(step, r, kind, attrs)
             self.mark(ia)
             return "neg:" + A["k"]
         if op == "div":
@@ -401,6 +435,7 @@ class Machine:
             self.check_unchanged(step)
             self.no_sharing(step, r)
             self.push({"k": kind, "attrs": attrs, "terms": exp}, r)
+            self.check_eq_forms(step, r, kind, attrs)
             self.mark(ia, ib)
             return f"div:{A['k']}/{B['t']}"
         if op == "eq":
@@ -468,11 +503,17 @@ class Machine:
             self.model[ia] = {"k": kind, "attrs": attrs, "terms": exp}
             self.real[ia] = r
             self.snap[ia] = self.snapshot(self.model[ia], r)
+            self.check_eq_forms(step, r, kind, attrs)
         else:
             self.check_unchanged(step)
             self.no_sharing(step, r)
             self.push({"k": kind, "attrs": attrs, "terms": exp}, r)
+            self.check_eq_forms(step, r, kind, attrs)
         self.mark(ia, ib)
+        if (A["k"] == "s" and A["val"] == 0) or (B["k"] == "s" and B["val"] == 0):
+            self.labels.add("zero-scalar:" + base)
+        if base == "mul" and A["k"] != "s" and B["k"] != "s" and any(c == 0 for c in exp.values()):
+            self.labels.add("product-with-cancelling-cross-terms")
         if ia == ib:
             self.labels.add("aliased-operands")
         if A["k"] == "s":
@@ -556,7 +597,9 @@ def operand(draw, fam, max_terms=3):
 def scalar(draw):
     t = draw(st.sampled_from(SCALAR_TYPES))
     if t in ("int", "npint"):
-        return {"k": "s", "t": t, "v": [draw(st.integers(-3, 3)), 0]}
+        return {"k": "s", "t": t, "v": [draw(st.sampled_from([-3, -2, -1, 0, 0, 1, 2, 3])), 0]}
+    if draw(st.integers(0, 5)) == 0:
+        return {"k": "s", "t": t, "v": [0.0, 0]}           # zero-scalar forms: op + 0.0, 0 * op, ...
     re = draw(st.one_of(dyadic, st.floats(0.25, 4, allow_nan=False), st.floats(-4, -0.25, allow_nan=False)))
     im = draw(dyadic) if t in ("complex", "npcomplex") else 0
     return {"k": "s", "t": t, "v": [re, im]}
@@ -564,8 +607,19 @@ def scalar(draw):
 
 @st.composite
 def histories(draw, fam, max_ops):
-    pool = draw(st.lists(operand(fam), min_size=2, max_size=4)) + draw(st.lists(scalar(), min_size=1, max_size=2))
-    ops = draw(st.lists(st.fixed_dictionaries({"op": st.sampled_from(ALL_OPS + ["add", "sub", "mul"]),
+    pool = draw(st.lists(operand(fam), min_size=2, max_size=4))
+    first = []
+    if draw(st.integers(0, 2)) == 0:
+        # conjugate pair c + x.w, c - x.w (same class): the product holds w with an explicit zero coefficient
+        w = draw(f_term() if fam == "F" else q_term()) or ([[0, 1]] if fam == "F" else [[0, "X"]])
+        c, x = draw(dyadic), draw(dyadic)
+        k = draw(st.sampled_from(["tf", "of"] if fam == "F" else ["tq", "th", "oq"]))
+        attrs = list(F_ATTRS[0]) if k == "tf" else None
+        i = len(pool)
+        pool += [{"k": k, "attrs": attrs, "terms": [[[], c, 0.0], [w, x, 0.0]]}, {"k": k, "attrs": attrs, "terms": [[[], c, 0.0], [w, -x, 0.0]]}]
+        first = [{"op": draw(st.sampled_from(["mul", "imul"])), "a": i, "b": i + 1}]
+    pool += draw(st.lists(scalar(), min_size=1, max_size=2))
+    ops = first + draw(st.lists(st.fixed_dictionaries({"op": st.sampled_from(ALL_OPS + ["add", "sub", "mul"]),
                                                "a": st.integers(0, 11), "b": st.integers(0, 11)}), min_size=1, max_size=max_ops))
     return {"fam": fam, "pool": pool, "ops": ops}
 
@@ -618,16 +672,19 @@ def matrix_cases():
     f_ops = [{"k": "tf", "attrs": F_ATTRS[0], "terms": [[[[0, 1], [1, 0]], 2.0, 0.0], [[], 0.5, 0.0]]},
              {"k": "tf", "attrs": F_ATTRS[1], "terms": [[[[1, 1], [0, 0]], 3.0, 0.0]]},
              {"k": "tf", "attrs": F_ATTRS[2], "terms": [[[[1, 1], [0, 0]], 3.0, 0.0]]},
-             {"k": "of", "attrs": None, "terms": [[[[2, 1], [0, 0]], 5.0, 0.0], [[[0, 1], [1, 0]], -2.0, 0.0]]}]
+             {"k": "of", "attrs": None, "terms": [[[[2, 1], [0, 0]], 5.0, 0.0], [[[0, 1], [1, 0]], -2.0, 0.0]]},
+             {"k": "tf", "attrs": F_ATTRS[0], "terms": [[[[0, 1], [1, 0]], -2.0, 0.0], [[], 0.5, 0.0]]},      # conjugate of the first: cross terms cancel
+             {"k": "of", "attrs": None, "terms": [[[[0, 1], [1, 0]], -2.0, 0.0], [[], 0.5, 0.0]]}]
     q_ops = [{"k": "tq", "attrs": None, "terms": [[[[0, "X"]], 2.0, 0.0], [[], 0.5, 0.0]]},
              {"k": "th", "attrs": Q_ANN[1], "terms": [[[[0, "Y"], [2, "Z"]], 3.0, 0.0]]},
              {"k": "th", "attrs": Q_ANN[2], "terms": [[[[0, "Y"], [2, "Z"]], 3.0, 0.0]]},
              {"k": "th", "attrs": Q_ANN[3], "terms": [[[[0, "Y"], [2, "Z"]], 3.0, 0.0]]},
              {"k": "th", "attrs": Q_ANN[4], "terms": [[[[0, "Z"]], 0.25, 0.0]]},
              {"k": "th", "attrs": None, "terms": [[[[0, "Z"]], 3.0, 0.0]]},
-             {"k": "oq", "attrs": None, "terms": [[[[0, "X"], [1, "Z"]], 7.0, 0.0], [[[0, "X"]], -2.0, 0.0]]}]
+             {"k": "oq", "attrs": None, "terms": [[[[0, "X"], [1, "Z"]], 7.0, 0.0], [[[0, "X"]], -2.0, 0.0]]},
+             {"k": "tq", "attrs": None, "terms": [[[[0, "X"]], -2.0, 0.0], [[], 0.5, 0.0]]}]                    # conjugate of the first
     scal = [{"k": "s", "t": t, "v": v} for t, v in [("int", [2, 0]), ("float", [0.5, 0]), ("complex", [1.0, 2.0]), ("npint", [3, 0]),
-                                                     ("npfloat", [0.25, 0]), ("npcomplex", [0.0, 1.0])]]
+                                                     ("npfloat", [0.25, 0]), ("npcomplex", [0.0, 1.0]), ("int", [0, 0]), ("float", [0.0, 0])]]
     out = []
     for fam, ops in (("F", f_ops), ("Q", q_ops)):
         pool = ops + scal
@@ -925,6 +982,108 @@ def collapse(ctx):
         return len(exp) < len(drows), labels
 
     ctx.search("collapse", cases(), body)
+
+
+# ------------------------------------------------------------------------------------------------ do_commute on large operators
+
+L_DIGIT = "IXYZ"          # the check's own digit -> letter convention for generated words (x bit: X,Y ; z bit: Y,Z)
+
+
+def affine_codes(n, k, a, b):
+    """k distinct base-4 word codes on n qubits: i -> mix((a*i + b) mod 4**n) with a odd (a bijection of the 2n-bit integers),
+    a pure function of the case data (large operators cannot be drawn element by element)."""
+    m = 4 ** n
+    out = []
+    for i in range(k):
+        x = ((2 * a + 1) * i + b) % m
+        x ^= x >> n                  # xor-shift: bijective on 2n-bit integers
+        out.append(x)
+    return out
+
+
+def code_digits(codes, n):
+    d = np.zeros((len(codes), n), dtype=np.int64)
+    for i, x in enumerate(codes):
+        for q in range(n):
+            d[i, q] = (x >> (2 * (n - 1 - q))) & 3
+    return d
+
+
+def digits_terms(d, coeff):
+    terms = {}
+    for i, row in enumerate(d):
+        terms[tuple((q, L_DIGIT[int(v)]) for q, v in enumerate(row) if v)] = coeff(i)
+    return terms
+
+
+@part("commute_large", quick=48, thorough=2400)
+def commute_large(ctx):
+    """do_commute on operators with hundreds / thousands of words, judged by an independent vectorised symplectic product
+    (x_a.z_b + z_a.x_b mod 2) computed from the check's own encoding of the generated words."""
+    from tangelo.toolboxes.operators import QubitOperator, MultiformOperator
+    from tangelo.toolboxes.operators.multiformoperator import do_commute
+
+    @st.composite
+    def cases(draw):
+        n = draw(st.integers(30, 34)) if draw(st.integers(0, 5)) == 0 else draw(st.integers(5, 8))
+        cap = 4 ** n if n <= 8 else 1200        # wide registers: fewer words (the cost is per letter)
+        ra = {"s": (1, 8), "m": (100, 300), "l": (1000, 4096)}[draw(st.sampled_from(["s", "m", "m", "l", "l", "l"]))]
+        rb = {"s": (1, 8), "m": (50, 120), "l": (120, 300)}[draw(st.sampled_from(["s", "m", "l", "l"]))]
+        ka = min(cap, draw(st.integers(*ra)))
+        kb = min(cap, draw(st.integers(*rb)))
+        return {"n": n, "ka": ka, "kb": kb, "a": [draw(st.integers(0, 10**6)), draw(st.integers(0, 4 ** n - 1))],
+                "b": [draw(st.integers(0, 10**6)), draw(st.integers(0, 4 ** n - 1))],
+                "commuting_family": draw(st.integers(0, 7)) == 0}
+
+    def body(case):
+        n = case["n"]
+        da = code_digits(affine_codes(n, case["ka"], *case["a"]), n)
+        db = code_digits(affine_codes(n, case["kb"], *case["b"]), n)
+        if case["commuting_family"]:
+            # Z/I words only on both sides: everything commutes
+            da, db = np.where(da % 2 == 1, 3, 0), np.where(db % 2 == 1, 3, 0)
+            da, db = np.unique(da, axis=0), np.unique(db, axis=0)
+        ta = digits_terms(da, lambda i: 1.0 + 0.001 * i)
+        tb = digits_terms(db, lambda i: 0.5 + 0.003 * i)
+        qa, qb = QubitOperator(), QubitOperator()
+        qa.terms, qb.terms = dict(ta), dict(tb)
+        A, B = MultiformOperator.from_qubitop(qa, n), MultiformOperator.from_qubitop(qb, n)
+        xa, za = ((da == 1) | (da == 2)).astype(np.int64), ((da == 2) | (da == 3)).astype(np.int64)
+        xb, zb = ((db == 1) | (db == 2)).astype(np.int64), ((db == 2) | (db == 3)).astype(np.int64)
+        anti = (xa @ zb.T + za @ xb.T) % 2                       # [i, j] = 1 iff word i of A anticommutes with word j of B
+        labels = {"n=5..8" if n <= 8 else "n=30..34", "ka=" + ("1..8" if len(da) <= 8 else ("100..300" if len(da) <= 300 else "1000+")),
+                  "kb=" + ("1..8" if len(db) <= 8 else "50..300"), "work-array>2^20" if len(da) * len(db) * 2 * n > 2 ** 20 else "work-array<=2^20"}
+        for X, Y, M, tx, ty, name in ((A, B, anti, ta, tb, "do_commute(A,B)"), (B, A, anti.T, tb, ta, "do_commute(B,A)")):
+            exp_res = ~M.any(axis=1)
+            got = np.asarray(do_commute(X, Y, term_resolved=True)).astype(bool)
+            if got.shape != exp_res.shape or not np.array_equal(got, exp_res):
+                bad = np.nonzero(got != exp_res)[0] if got.shape == exp_res.shape else []
+                raise Fail(f"{name} term_resolved on {len(tx)} x {len(ty)} words, {n} qubits: {len(bad)} entries differ from the symplectic product, "
+                           f"first at rows {list(bad[:5])} (expected {list(exp_res[bad[:5]])})", sig="multiform:do_commute:large:term_resolved")
+            g = bool(do_commute(X, Y))
+            if exp_res.all():
+                labels.add("all-commute")
+                if not g:
+                    raise Fail(f"{name} is False although every pair of words commutes", sig="multiform:do_commute:large:false-negative")
+            else:
+                # certify AB-BA != 0 on one word before holding the global answer to False
+                i, j = [int(v) for v in np.argwhere(M)[0]]
+                kx, ky = list(tx), list(ty)
+                _, w = RO.pauli_mul(kx[i], ky[j])
+                coef = 0
+                for t1, c1 in tx.items():
+                    _, t2 = RO.pauli_mul(t1, w)
+                    if t2 in ty and not RO.words_commute(t1, t2):
+                        coef += 2 * RO.pauli_mul(t1, t2)[0] * c1 * ty[t2]
+                if abs(coef) > 1e-9:
+                    labels.add("commutator-certified-nonzero")
+                    if g:
+                        raise Fail(f"{name} is True although AB-BA has coefficient {coef} on {w}", sig="multiform:do_commute:large:false-positive")
+                else:
+                    labels.add("commutator-unjudged")
+        return len(da) > 8 and len(db) > 8, labels
+
+    ctx.search("commute_large", cases(), body)
 
 
 # ------------------------------------------------------------------------------------------------ MultiformOperator histories
